@@ -101,7 +101,7 @@ pub fn rand_schedule(r: &mut Rng, len: usize, hdr: usize) -> Vec<Step> {
         }
         return s;
     }
-    let style = r.below(6);
+    let style = if len > 300 && r.chance(1, 4) { 6 } else { r.below(6) };
     let pend_p = match r.below(4) {
         0 => 0,
         1 => 1,
@@ -142,6 +142,22 @@ pub fn rand_schedule(r: &mut Rng, len: usize, hdr: usize) -> Vec<Step> {
             while p < len && cuts.len() < 256 {
                 cuts.push(p);
                 p += k;
+            }
+        }
+        6 => {
+            // block-sized deliveries: cuts at multiples of a power of two (256..64 KiB) counted from the
+            // stream start or from the body start, optionally one byte off — where chunked readers,
+            // growth steps and staging buffers of an implementation change behaviour
+            let blk = 1usize << r.range(8, 16);
+            let base = if r.bool() { hdr } else { 0 };
+            let off = *r.pick(&[0usize, 0, 1, blk - 1]);
+            let mut p = base + blk + off;
+            while p < len && cuts.len() < 64 {
+                cuts.push(p);
+                p += blk;
+            }
+            if r.bool() {
+                cuts.push(hdr.min(len - 1));
             }
         }
         _ => {}
